@@ -1,5 +1,11 @@
 """Glue: build artefacts -> Program -> Interp; conversion of template results (`Val`) to Python data; native replay."""
-import os, sys, json, subprocess, time
+import os, sys, json, subprocess, time, resource
+
+
+def _limit_native():
+    # a replayed description may ask for an absurd table: never let the native run take the machine down
+    resource.setrlimit(resource.RLIMIT_AS, (2 << 30, 2 << 30))
+    resource.setrlimit(resource.RLIMIT_CPU, (120, 120))
 import z3
 from . import build
 from .program import load_program, Unsupported
@@ -24,13 +30,14 @@ class Session:
     def replay(self, template, args):
         if self._replay is None or self._replay.poll() is not None:
             self._replay = subprocess.Popen([self.art['replay'], '--batch'], stdin=subprocess.PIPE, stdout=subprocess.PIPE,
-                                            text=True, bufsize=1)
+                                            text=True, bufsize=1, preexec_fn=_limit_native)
         line = template + ' ' + ' '.join(str(to_i64(a)) for a in args) + '\n'
         self._replay.stdin.write(line); self._replay.stdin.flush()
         out = self._replay.stdout.readline()
         if not out:
             # crashed (abort / stack overflow): rerun alone to capture status
-            p = subprocess.run([self.art['replay'], template] + [str(to_i64(a)) for a in args], capture_output=True, text=True, timeout=60)
+            p = subprocess.run([self.art['replay'], template] + [str(to_i64(a)) for a in args], capture_output=True, text=True, timeout=60,
+                               preexec_fn=_limit_native)
             self._replay = None
             return {'crash': p.returncode, 'stderr': p.stderr[-500:]}
         return json.loads(out)
@@ -39,7 +46,7 @@ class Session:
         """isolated run with a time limit (hang detection)"""
         try:
             p = subprocess.run([self.art['replay'], template] + [str(to_i64(a)) for a in args], capture_output=True, text=True,
-                               timeout=timeout)
+                               timeout=timeout, preexec_fn=_limit_native)
         except subprocess.TimeoutExpired:
             return {'timeout': timeout}
         if p.returncode != 0 or not p.stdout.strip():
